@@ -357,11 +357,15 @@ class SpecEval:
         n0 = len(self.st.pc)
         body = sub.boolean(lam.body)
         # typing facts produced under the binder mention the bound variable: quantify them as well
+        # well-formedness facts of heap values read under the binder hold for every instance: they are assumptions about
+        # the heap (cells outside list ranges are unconstrained), not part of the clause
         facts = self.st.pc[n0:]
         del self.st.pc[n0:]
+        if facts:
+            self.st.assume(z3.ForAll(vars_, z3.And(facts)))
         if exists:
-            return V(BOOL, z3.Exists(vars_, z3.And(guard + facts + [body])))
-        return V(BOOL, z3.ForAll(vars_, z3.Implies(z3.And(guard + facts) if (guard or facts) else z3.BoolVal(True), body)))
+            return V(BOOL, z3.Exists(vars_, z3.And(guard + [body])))
+        return V(BOOL, z3.ForAll(vars_, z3.Implies(z3.And(guard) if guard else z3.BoolVal(True), body)))
 
     def c_forall(self, node):
         return self._quant(node, False)
@@ -421,9 +425,10 @@ class SpecEval:
         tag = z3.Select(self.eng.arr(self.st, "obj.tag"), v.t)
         return V(BOOL, z3.And(v.t != 0, z3.Or([tag == R.CLASS_IDS[c] for c in cl])))
 
-    def _arr_pair(self, name):
+    def _arr_pair(self, name, base=None):
         """(array now, array in the pre-state)"""
-        base = self.pre if self.pre is not None else self.st.old
+        if base is None:
+            base = self.pre if self.pre is not None else self.st.old
         now = self.eng.arr(self.st, name)
         before = base.heap.arrs.get(name)
         if before is None:
@@ -434,7 +439,7 @@ class SpecEval:
 
     def _field_names(self, spec):
         if spec == "list":
-            return ["list.len", "list.I", "list.R", "list.S"]
+            return ["list.len", "list.I", "list.R", "list.S", "list.nan"]
         cname, fname = spec.split(".", 1)
         owner = R.field_owner(cname, fname)
         fs = R.class_fields(cname)[fname]
@@ -448,16 +453,24 @@ class SpecEval:
         objs = [self.eval(a).t for a in node.args[1:]]
         return self._unchanged(node.args[0].value, objs)
 
-    def _unchanged(self, spec, objs, only_pre=True):
+    def c_loop_lists_unchanged_except(self, node):
+        """every list that existed at loop entry, except the named ones, has the length and elements it had at loop entry"""
+        objs = [self.eval(a).t for a in node.args]
+        return self._unchanged("list", objs, base=self.st.loop_entry)
+
+    def c_loop_unchanged(self, node):
+        return self._unchanged(node.args[0].value, [self.eval(a).t for a in node.args[1:]], base=self.st.loop_entry)
+
+    def _unchanged(self, spec, objs, only_pre=True, base=None):
         conj = []
         for nm in self._field_names(spec):
-            now, before = self._arr_pair(nm)
+            now, before = self._arr_pair(nm, base)
             if now.eq(before):
                 continue
             o = z3.Int(f"o!{next(_fresh)}")
             g = [o != x for x in objs]
             if only_pre:
-                g.append(o <= self._alloc0())
+                g.append(o <= (base.heap.alloc if base is not None else self._alloc0()))
             conj.append(z3.ForAll([o], z3.Implies(z3.And(g) if g else z3.BoolVal(True), z3.Select(now, o) == z3.Select(before, o))))
         return V(BOOL, z3.And(conj) if conj else z3.BoolVal(True))
 
@@ -512,6 +525,12 @@ class SpecEval:
         el = self.eng.list_elems(self.st, lst)
         i, j = z3.Int(f"i!{next(_fresh)}"), z3.Int(f"j!{next(_fresh)}")
         return V(BOOL, z3.ForAll([i, j], z3.Implies(z3.And(0 <= i, i < j, j < ln), z3.Select(el, i) != z3.Select(el, j))))
+
+    def c_rsum(self, node):
+        """mathematical sum of a list of reals"""
+        from .externals import rsum_axioms
+        lst = self.eval(node.args[0])
+        return V(REAL, rsum_axioms(self.st, self.eng.list_elems(self.st, lst), self.eng.list_len(self.st, lst)))
 
     def c_min(self, node):
         a, b = lift(self.eval(node.args[0])), lift(self.eval(node.args[1]))
